@@ -15,7 +15,7 @@ Section Parked.
 Variable bname : bytes. Variable store : ident -> lookup. Variable async_store : bool.
 Notation run := (run bname store async_store).
 Notation step := (step bname store async_store).
-Notation Good := (Good store async_store).
+Notation Good := (Good (srow store) async_store).
 
 (* an event during the wait: not q's own, or bytes arriving for q *)
 Definition waiting_event (q : nat) (s : state) (e : event) : Prop := ~ own q s e \/ exists ch, e = Data q ch.
